@@ -449,14 +449,15 @@ theorem runVertex_ok {c : Config α} {source : Nat} {target : Option Nat} {sched
     {r : AlgResult α} (h : c.runVertex source target sched = .ok r) :
     ∃ res, runVertexOriented c.inst source target sched = .ok res ∧
       r.trees = [res.final.sol] ∧
-      r.routes = (match res.route with | some x => [x] | none => []) ∧
+      r.routes = res.route.toList ∧
       r.iterations = res.final.iters := by
   unfold Config.runVertex at h
   split at h
   · cases h
   · rename_i res hres
     cases h
-    exact ⟨res, hres, rfl, rfl, rfl⟩
+    refine ⟨res, hres, rfl, ?_, rfl⟩
+    cases res.route <;> rfl
 
 /-- the wrapper's `fixAll` applies `fix` to every route and fails if one application fails -/
 theorem fixAll_ok (fix : List (Branch α) → Except ErrKind (List (Branch α))) :
@@ -495,7 +496,7 @@ theorem runEdge_nonadjacent (c : Config α) (source tgt : Nat) (sched : List Nat
     obtain ⟨res, hres, htrees, hroutes, hiters⟩ := runVertex_ok hr'
     obtain ⟨_, inner, hinner, _⟩ := runVertexOriented_some hres
     rw [hinner] at hroutes
-    simp only at hroutes
+    simp only [Option.toList_some] at hroutes
     split at h
     · cases h
     · split at h
@@ -579,6 +580,93 @@ theorem runEdge_same (c : Config α) (source : Nat) (sched : List Nat) (e1 : Edg
     c.runEdge source (some source) sched = .ok { trees := [], routes := [], iterations := 0 } := by
   unfold Config.runEdge
   simp only [h1, if_true]
+
+/-- converse repackaging of `runVertex_ok` -/
+theorem runVertex_eq {c : Config α} {source : Nat} {target : Option Nat} {sched : List Nat}
+    {res : SearchResult α} (h : runVertexOriented c.inst source target sched = .ok res) :
+    c.runVertex source target sched =
+      .ok { trees := [res.final.sol],
+            routes := res.route.toList,
+            iterations := res.final.iters } := by
+  unfold Config.runVertex
+  simp only [h]
+  cases res.route <;> rfl
+
+/-! ### forward direction: `keyV` is the head, `termV` the tail of an edge -/
+
+theorem inst_keyV_fwd {c : Config α} (hfwd : c.reverse = false) {e : Nat} {er : EdgeRec α}
+    (h : c.edges[e]? = some er) : c.inst.keyV e = er.dst := by
+  simp [Config.inst, h, hfwd]
+
+theorem inst_termV_fwd {c : Config α} (hfwd : c.reverse = false) {e : Nat} {er : EdgeRec α}
+    (h : c.edges[e]? = some er) : c.inst.termV e = er.src := by
+  simp [Config.inst, h, hfwd]
+
+/-! ### wrapping an inner route between an origin and a destination element -/
+
+/-- no element of the parent chain to `t` is expanded from `t` itself (its parent's label is
+strictly below the label of `t`) -/
+theorem pathTo_terminal_ne {I : Inst α} {source : Nat} {s : SState α} (hinv : TreeInv I source s)
+    {t : Nat} {r : List (Branch α)} (h : PathTo source s.sol t r) :
+    ∀ b ∈ r, b.terminal ≠ t := by
+  intro b hb
+  have hent := (SearchTree.pathTo_entry hinv h b hb).1
+  have hp : SearchTree.LabelLt s b.terminal (I.keyV b.edge) := SearchTree.parent_label_lt hinv hent
+  rcases SearchTree.pathTo_label hinv h b hb with h1 | h1
+  · rw [h1] at hp; exact hp.ne
+  · exact (hp.trans h1).ne
+
+/-- seams chain: an element whose edge arrives at the inner source in front, an element whose edge
+leaves the inner target behind -/
+theorem wrap_chain {I : Inst α} {src t : Nat} {s : SState α} {inner : List (Branch α)}
+    (hrc : RouteChain I src s t inner) (hne : inner ≠ []) (o d : Branch α)
+    (ho : I.keyV o.edge = src) (hd : I.termV d.edge = t) :
+    (o :: inner ++ [d]).IsChain (fun a b => I.keyV a.edge = I.termV b.edge) := by
+  have hin : inner.IsChain (fun a b => I.keyV a.edge = I.termV b.edge) :=
+    List.isChain_iff_getElem.2 (fun i hi => (hrc.chain_getElem i hi).2)
+  have h2 : (inner ++ [d]).IsChain (fun a b => I.keyV a.edge = I.termV b.edge) := by
+    refine hin.append (List.isChain_singleton _) ?_
+    intro x hx y hy
+    simp only [List.head?_cons, Option.mem_def, Option.some.injEq] at hy
+    subst hy
+    rw [hd]
+    exact hrc.last_key x hx
+  rw [List.cons_append]
+  refine h2.cons ?_
+  intro y hy
+  rw [List.head?_append_of_ne_nil _ hne] at hy
+  have hm : y ∈ inner := List.mem_of_mem_head? hy
+  rw [(hrc.term_eq y hm).1, hrc.head_terminal y hy]
+  exact ho
+
+/-- the wrapped edge list has no repetition: the origin edge arrives at the inner source, which is
+never a key vertex of the inner route; the destination edge leaves the inner target, from which no
+inner element is expanded (self loops included) -/
+theorem wrap_nodup {I : Inst α} {src t : Nat} {s : SState α} {inner : List (Branch α)}
+    (hinv : TreeInv I src s) (hp : PathTo src s.sol t inner) (o d : Branch α)
+    (ho : I.keyV o.edge = src) (hd : I.termV d.edge = t) (hod : o.edge ≠ d.edge) :
+    ((o :: inner ++ [d]).map (·.edge)).Nodup := by
+  simp only [List.cons_append, List.map_cons, List.map_append, List.map_nil]
+  rw [List.nodup_cons]
+  refine ⟨?_, ?_⟩
+  · intro h
+    rcases List.mem_append.1 h with h | h
+    · obtain ⟨b, hb, hbe⟩ := List.mem_map.1 h
+      have := (SearchTree.pathTo_entry hinv hp b hb).2
+      rw [hbe, ho] at this
+      exact this rfl
+    · simp only [List.mem_singleton] at h
+      exact hod h
+  · rw [List.nodup_append]
+    refine ⟨SearchTree.pathTo_edges_nodup hinv hp, by simp, ?_⟩
+    intro x hx y hy
+    simp only [List.mem_singleton] at hy
+    subst hy
+    obtain ⟨b, hb, rfl⟩ := List.mem_map.1 hx
+    intro hbe
+    have hterm := (hinv.entry _ b (SearchTree.pathTo_entry hinv hp b hb).1).2.1
+    rw [hbe, hd] at hterm
+    exact pathTo_terminal_ne hinv hp b hb hterm.symm
 
 end SearchRoute
 end Compass
